@@ -2760,6 +2760,7 @@ func (r *repoT) saveToStore(db storage.OrderedKeyValueDB) error {
 		return fmt.Errorf("cannot save repo to nil store")
 	}
 	r.RLock()
+	dvid.VerifYield("datastore.saveToStore")
 	compression, err := dvid.NewCompression(dvid.LZ4, dvid.DefaultCompression)
 	if err != nil {
 		return err
